@@ -117,6 +117,25 @@ def descLess {α : Type} (ds : List (Desc α)) (item1 item2 : α) : Bool :=
   | [] => false
   | d :: rest => decide (compareBySortDescriptors d rest item1 item2 < 0)
 
+/-- The PINNED commit (c07da28), kept only for the refutation theorem `C19_pinned_refuted`:
+    `key1.CompareTo(key2)` was evaluated and its result discarded (`result` stayed 0), and the comparator
+    was `_compareBySortDescriptors(…) >= 0`. -/
+def compareBySortDescriptorsPinned {α : Type} (d : Desc α) (rest : List (Desc α)) (item1 item2 : α) : Int :=
+  let key1 := d.key item1
+  let key2 := d.key item2
+  let result : Int := 0
+  if key1.isSome && key2.isNone then (if d.asc then 1 else -1)
+  else if key1.isNone && key2.isSome then (if d.asc then -1 else 1)
+  else
+    match rest with
+    | d' :: rest' => if result == 0 then compareBySortDescriptorsPinned d' rest' item1 item2 else result
+    | [] => result
+
+def descLessPinned {α : Type} (ds : List (Desc α)) (item1 item2 : α) : Bool :=
+  match ds with
+  | [] => false
+  | d :: rest => decide (compareBySortDescriptorsPinned d rest item1 item2 ≥ 0)
+
 /-- `SortBySortDescriptors(ds, input)` / `builder.Sort(input)`: in place. -/
 def sortBySortDescriptors {α : Type} (ds : List (Desc α)) (input : List α) : List α :=
   sort (descLess ds) input
@@ -318,9 +337,15 @@ def cmpByName (name : String) : Option (Rec → Rec → Bool) :=
 def showIds (l : List (Nat × Rec)) : String :=
   "[" ++ " ".intercalate (l.map (fun p => toString p.1)) ++ "]"
 
-def tag (l : List Rec) : List (Nat × Rec) := (l.zipIdx).map (fun p => (p.2, p.1))
+/-- tag every element with its input position (the payload id the harness gives a record) -/
+def tag {β : Type} (l : List β) : List (Nat × β) := (l.zipIdx).map (fun p => (p.2, p.1))
 
-def liftLess (less : Rec → Rec → Bool) (x y : Nat × Rec) : Bool := less x.2 y.2
+/-- a comparator on elements, applied to tagged elements (the tag is invisible to it) -/
+def liftLess {β : Type} (less : β → β → Bool) (x y : Nat × β) : Bool := less x.2 y.2
+
+/-- what the model answers for a comparator sort: the input positions in output order -/
+def modelIds {β : Type} (less : β → β → Bool) (recs : List β) : List Nat :=
+  (sort (liftLess less) (tag recs)).map (·.1)
 
 def liftDesc (d : Desc Rec) : Desc (Nat × Rec) := ⟨fun p => d.key p.2, d.asc⟩
 
@@ -407,6 +432,12 @@ def parseIds (obs : String) : Option (List Nat × Bool) :=
 
 def lookupAll {β : Type} (recs : List β) (ids : List Nat) : Option (List (Nat × β)) :=
   allSome (ids.map (fun i => (recs[i]?).map (fun r => (i, r))))
+
+/-- the oracle's three checks as one Boolean -/
+def acceptsB {β : Type} (less : β → β → Bool) (recs : List β) (ids : List Nat) : Bool :=
+  match lookupAll recs ids with
+  | none => false
+  | some out => isPermB recs.length out && orderedB less out && stableB less out
 
 def verdict {β : Type} (less : β → β → Bool) (recs : List β) (ids : List Nat) : String :=
   match lookupAll recs ids with
